@@ -1,13 +1,14 @@
 ---------------------------- MODULE TraceRename ----------------------------
 (* C02 acceptor at the unit level: a history of (identifier in, identifier out) pairs recorded
    from one name factory, judged by the Layer P renaming clauses (one call per step).
-   Trace record: {calls: [{in, out}], keep: [[..]], keepAll, builtins: [[..]]}. *)
+   Trace record: {calls: [{in, out}], keepFile: [bytes of the --keep-names-from-file file, or empty], keepAll,
+   builtins: [[..]]}. Which names the file lists is decided here (P8Names!Listed), not by the code under test. *)
 EXTENDS P8Names, Json, IOUtils, TLCExt
 Traces == JsonDeserialize(IOEnv.TRACE_FILE)
 VARIABLES tid, k, fwd, bwd, verdict
 vars == <<tid, k, fwd, bwd, verdict>>
 T == Traces[tid]
-Keep == {T.keep[j] : j \in 1..Len(T.keep)}
+InKeep(x) == Listed(x, T.keepFile)
 Reserved == CoreReserved \cup {T.builtins[j] : j \in 1..Len(T.builtins)}
 Init == tid \in 1..Len(Traces) /\ k = 1 /\ fwd = <<>> /\ bwd = <<>> /\ verdict = "run"
 Stop(v) == verdict' = v /\ UNCHANGED <<tid, k, fwd, bwd>>
@@ -19,8 +20,8 @@ Step ==
      ELSE LET x == T.calls[k].in y == T.calls[k].out IN
        IF x \in DOMAIN fwd /\ fwd[x] # y THEN Stop("rename-consistent")
        ELSE IF y \in DOMAIN bwd /\ bwd[y] # x THEN Stop("rename-injective")
-       ELSE IF (T.keepAll \/ x \in Reserved \/ x \in Keep) /\ y # x THEN Stop("rename-kept")
-       ELSE IF y # x /\ (y \in Reserved \/ y \in Keep \/ ~IsIdent(y) \/ y \in Keywords) THEN Stop("rename-generated")
+       ELSE IF (T.keepAll \/ x \in Reserved \/ InKeep(x)) /\ y # x THEN Stop("rename-kept")
+       ELSE IF y # x /\ (y \in Reserved \/ InKeep(y) \/ ~IsIdent(y) \/ y \in Keywords) THEN Stop("rename-generated")
        ELSE /\ k' = k + 1
             /\ fwd' = (IF x \in DOMAIN fwd THEN fwd ELSE Put(fwd, x, y))
             /\ bwd' = (IF y \in DOMAIN bwd THEN bwd ELSE Put(bwd, y, x))
